@@ -32,7 +32,7 @@ theorem mSignature_render (le : Bool) (t : Ty) (fds : Fds) (h : t.render.length 
     mSignature le t.render fds =
       .ok (2 + t.render.length, encUInt (endianOf le) 1 t.render.length ++ Spec.sigBytes t ++ [0], fds) := by
   unfold mSignature
-  simp only [asciiEncode_render, fmt_signature, Spec.sigBytes_length]
+  simp only [asciiEncode_render, fmt_signature, frame_signature, Spec.sigBytes_length]
   rw [pack_uint 'B' le 1 (.int .plain (t.render.length : Int)) _ rfl rfl (by omega) (by omega)]
   simp
 
@@ -145,7 +145,7 @@ theorem marshalOne_spec (A : AlignTable) (hA : PadOK A) (hpos : A.Pos) (lall : L
     have hlt : (body.length : Int) < ((256 ^ 4 : Nat) : Int) := by
       unfold Spec.maxArray at hmax; omega
     simp only [Ty.render, marshalOne, List.head?_cons, disp_a, List.tail, head?_render, hA, hitems, ih,
-      fmt_array, Nat.zero_add]
+      fmt_array, frame_array, Nat.zero_add]
     rw [pack_uint 'I' le 4 (.int .plain (body.length : Int)) _ rfl rfl (by omega) hlt]
     simp only [Int.toNat_natCast, zeros_length, List.length_append, encUInt_length]
   | .struct vs, fd, t, pv, k, k', off, bs, fuel, hr, he, hf => by
